@@ -252,6 +252,7 @@ class FuncSpec:
         self.uses_post = []
         self.uses_after = {}
         self.ghost_state = []
+        self.globals = []
 
 
 class Lemma:
@@ -384,6 +385,9 @@ class SpecDB:
                 elif head == 'ghost':
                     t, n = rest.split()
                     ctx.ghosts.append((t, n))
+                elif head == 'global':
+                    t, n = rest.split()
+                    ctx.globals.append((t, n))
                 elif head == 'ghost_state':
                     t, n = rest.split()
                     ctx.ghost_state.append((t, n))
